@@ -7,7 +7,19 @@
 //
 // The harness recovers an error's step text / expected / found from the message, C13/C15 speak about
 // "the text of the step" an error names: which field goes into which slot of the message is tied here.
-// Fails closed: an Error() method that is not exactly `return fmt.Sprintf(<raw string>, args…)` is refused.
+// Fails closed: an Error() method that is not `return fmt.Sprintf(<format>, args…)` is refused, where
+// <format> is a string literal or — go/types, through normalize.go — a constant expression of string
+// kind (a named constant denotes exactly its value). One other spelling is accepted:
+//
+//	return s0 + s1 + … + sn      every si a string literal or an operand whose static type is exactly
+//	                             the predeclared `string` (go/types)
+//
+// and is emitted as the format / argument list of the equivalent Sprintf: a literal contributes its
+// text (a literal containing % is refused), any other operand contributes `%s` and itself as an
+// argument. Equivalent because fmt's %s on an operand of type string (no method set: neither
+// Stringer nor error) writes the string itself and everything else is copied; operands are evaluated left to
+// right in both forms (and are call-free field selections: errTextOperand). A package that does not
+// type-check gives no type information: then only the Sprintf form with a literal is accepted.
 package main
 
 import (
@@ -90,17 +102,25 @@ func genErrTexts(repo, out string) error {
 				if !ok || len(ret.Results) != 1 {
 					return s.bad(d, "Error() of %s is not `return fmt.Sprintf(…)`", rt)
 				}
+				if fm, args, ok := errTextConcat(s, f, ret.Results[0]); ok {
+					e.format, e.args = fm, args
+					e.seen = true
+					continue
+				}
 				call, ok := ret.Results[0].(*ast.CallExpr)
 				if !ok || s.str(call.Fun) != "fmt.Sprintf" || len(call.Args) < 1 {
 					return s.bad(ret, "Error() of %s is not `return fmt.Sprintf(…)`", rt)
 				}
-				lit, ok := call.Args[0].(*ast.BasicLit)
-				if !ok || lit.Kind != token.STRING {
+				var fm string
+				if lit, ok := call.Args[0].(*ast.BasicLit); ok && lit.Kind == token.STRING {
+					fm, err = strconv.Unquote(lit.Value)
+					if err != nil {
+						return s.bad(lit, "format string does not unquote")
+					}
+				} else if v, ok := normConstString(f, call.Args[0]); ok {
+					fm = v
+				} else {
 					return s.bad(call, "the format of %s.Error() is not a string literal", rt)
-				}
-				fm, err := strconv.Unquote(lit.Value)
-				if err != nil {
-					return s.bad(lit, "format string does not unquote")
 				}
 				e.format = fm
 				for _, a := range call.Args[1:] {
@@ -143,4 +163,64 @@ func genErrTexts(repo, out string) error {
 	}
 	b.WriteString("]\n\nend JPV.Gen\n")
 	return os.WriteFile(filepath.Join(out, "ErrTexts.lean"), []byte(b.String()), 0o644)
+}
+
+// errTextOperand: identifiers and field selections only (no calls, no indexing).
+func errTextOperand(e ast.Expr) bool {
+	switch x := e.(type) {
+	case *ast.Ident:
+		return true
+	case *ast.SelectorExpr:
+		return errTextOperand(x.X)
+	case *ast.ParenExpr:
+		return errTextOperand(x.X)
+	}
+	return false
+}
+
+// errTextConcat: e is `s0 + s1 + … + sn` (n ≥ 1) as described in the header; returns the format and
+// the argument texts of the equivalent Sprintf.
+func errTextConcat(s *tiSrc, f *ast.File, e ast.Expr) (string, []string, bool) {
+	var leaves []ast.Expr
+	var flat func(e ast.Expr) bool
+	flat = func(e ast.Expr) bool {
+		switch x := e.(type) {
+		case *ast.ParenExpr:
+			return flat(x.X)
+		case *ast.BinaryExpr:
+			if x.Op != token.ADD {
+				return false
+			}
+			return flat(x.X) && flat(x.Y)
+		}
+		leaves = append(leaves, e)
+		return true
+	}
+	if _, isSum := e.(*ast.BinaryExpr); !isSum || !flat(e) || len(leaves) < 2 {
+		return "", nil, false
+	}
+	var fm strings.Builder
+	var args []string
+	for _, l := range leaves {
+		if lit, ok := l.(*ast.BasicLit); ok {
+			if lit.Kind != token.STRING {
+				return "", nil, false
+			}
+			v, err := strconv.Unquote(lit.Value)
+			if err != nil {
+				return "", nil, false
+			}
+			if strings.Contains(v, "%") {
+				return "", nil, false // would need %%, which the consumers of errTexts do not read
+			}
+			fm.WriteString(v)
+			continue
+		}
+		if !errTextOperand(l) || !normIsPlainString(f, l) {
+			return "", nil, false
+		}
+		fm.WriteString("%s")
+		args = append(args, s.str(l))
+	}
+	return fm.String(), args, true
 }
